@@ -2,9 +2,11 @@
 //
 // Kind "write": fschannel.OpenRotateFile + Write driven directly with generated batches of
 // newline-terminated JSON lines (lengths around the rotation boundary), with waits for the
-// next wall-clock second, outside remove / rename of the log file and restarts in between.
+// next wall-clock second, outside remove / rename of the log file, its directory renamed away
+// (or replaced by a regular file) and restored, and restarts in between.
 // Kind "chan": the registered "file" channel (pushers.Get("file") + toml configuration) end
-// to end with Send, bursts separated by the idle flush.
+// to end with Send, bursts separated by the idle flush; the same destination faults hit the
+// quiescent channel between bursts; events the JSON encoder rejects are mixed into the bursts.
 //
 // The wall-clock second is observed before and after every call that may rotate; a case in
 // which the two differ is run again.  Seconds are reported relative to the start of the case.
@@ -17,6 +19,7 @@ import (
 	"encoding/json"
 	"fmt"
 	"io/ioutil"
+	"math"
 	"os"
 	"path/filepath"
 	"sort"
@@ -30,13 +33,16 @@ import (
 	"github.com/honeytrap/honeytrap/event"
 	"github.com/honeytrap/honeytrap/pushers"
 	fschannel "github.com/honeytrap/honeytrap/pushers/file"
+	logging "github.com/op/go-logging"
 	"verif/harness/hx"
 )
 
 // ---- inputs ----
 
 type Op struct {
-	K    string `json:"k"`              // w write, t wait for the next second, rm remove, mv rename away, re restart
+	// w write, t wait for the next second, rm remove, mv rename away, re restart,
+	// da directory of the log renamed away, df the same and a regular file put in its place, db restored
+	K    string `json:"k"`
 	Lens []int  `json:"lens,omitempty"` // w: total length of each line, newline included
 }
 
@@ -47,10 +53,15 @@ type WIn struct {
 }
 
 type CIn struct {
-	Max      int64   `json:"max"`
-	Openable bool    `json:"openable"`
-	Init     []int   `json:"init,omitempty"`
-	Bursts   [][]int `json:"bursts"` // per burst: target length of each encoded event
+	Max      int64 `json:"max"`
+	Openable bool  `json:"openable"`
+	Init     []int `json:"init,omitempty"`
+	// per burst: target length of each encoded event; -1/-2/-3 = an event the encoder rejects
+	// (NaN float / chan / func value)
+	Bursts [][]int `json:"bursts"`
+	// per burst (may be shorter): the fault that hits the quiescent channel before the burst
+	// ("" none, rm, mv, da, df, db as for the direct cases)
+	Faults []string `json:"faults,omitempty"`
 	// Big: one burst of more than 500 KiB without idle gap (the size flush fires during the burst
 	// and may rotate hundreds of times): the second of each rotation is read off the file names
 	Big bool `json:"big,omitempty"`
@@ -90,6 +101,111 @@ type Obs struct {
 }
 
 const tsLayout = "20060102150405"
+
+// dest is the scratch layout of one case: root/d/log (+ rotated siblings), files renamed away go
+// to root/moved-<k>, the directory itself to root/d.away while it is "unreachable".
+type dest struct {
+	root, ldir, path string
+	away, blocker    bool
+	nmoved           int
+}
+
+func newDest(root string) *dest {
+	d := &dest{root: root, ldir: filepath.Join(root, "d")}
+	d.path = filepath.Join(d.ldir, "log")
+	if err := os.MkdirAll(d.ldir, 0o755); err != nil {
+		hx.Fatal("mkdir: %v", err)
+	}
+	return d
+}
+
+// fault applies one outside operation; ob collects what the harness itself took away.
+func (d *dest) fault(k string, ob *Obs) {
+	switch k {
+	case "rm":
+		if b, err := ioutil.ReadFile(d.path); err == nil {
+			if os.Remove(d.path) == nil {
+				ob.gone = append(ob.gone, b)
+				ob.Gone = append(ob.Gone, len(b))
+			}
+		}
+	case "mv":
+		if _, err := os.Stat(d.path); err == nil {
+			if os.Rename(d.path, filepath.Join(d.root, fmt.Sprintf("moved-%d", d.nmoved))) == nil {
+				d.nmoved++
+			}
+		}
+	case "da", "df":
+		if !d.away {
+			if err := os.Rename(d.ldir, d.ldir+".away"); err != nil {
+				hx.Fatal("rename dir away: %v", err)
+			}
+			d.away = true
+			if k == "df" {
+				if err := ioutil.WriteFile(d.ldir, []byte("x"), 0o600); err != nil {
+					hx.Fatal("placeholder: %v", err)
+				}
+				d.blocker = true
+			}
+		}
+	case "db":
+		d.restore()
+	}
+}
+
+func (d *dest) restore() {
+	if d.away {
+		if d.blocker {
+			os.Remove(d.ldir)
+			d.blocker = false
+		}
+		if err := os.Rename(d.ldir+".away", d.ldir); err != nil {
+			hx.Fatal("rename dir back: %v", err)
+		}
+		d.away = false
+	}
+}
+
+func (d *dest) readMoved(ob *Obs) {
+	for i := 0; i < d.nmoved; i++ {
+		b, err := ioutil.ReadFile(filepath.Join(d.root, fmt.Sprintf("moved-%d", i)))
+		if err != nil {
+			hx.Fatal("moved file: %v", err)
+		}
+		ob.moved = append(ob.moved, b)
+		ob.Moved = append(ob.Moved, len(b))
+	}
+}
+
+// ---- the implementation's log output: "Failed to copy data to File" names the path ----
+
+type logTap struct {
+	mu   sync.Mutex
+	msgs []string
+}
+
+func (t *logTap) Log(l logging.Level, depth int, r *logging.Record) error {
+	m := r.Message()
+	t.mu.Lock()
+	t.msgs = append(t.msgs, m)
+	t.mu.Unlock()
+	return nil
+}
+
+// count of write errors logged for a path
+func (t *logTap) failures(path string) int {
+	t.mu.Lock()
+	defer t.mu.Unlock()
+	n := 0
+	for _, m := range t.msgs {
+		if strings.Contains(m, "Failed to copy data") && strings.Contains(m, path) {
+			n++
+		}
+	}
+	return n
+}
+
+var tap = &logTap{}
 
 // line number id of total length n (newline included) as the direct cases write it
 func mkLine(id, n int) []byte {
@@ -162,10 +278,8 @@ type rotFile interface {
 // runW returns ambiguous=true when a clock reading straddled a second boundary.
 func runW(in WIn, dir string) (ob Obs, batches [][]byte, initB []byte, crash string, ambiguous bool) {
 	os.RemoveAll(dir)
-	if err := os.MkdirAll(dir, 0o755); err != nil {
-		hx.Fatal("mkdir: %v", err)
-	}
-	path := filepath.Join(dir, "log")
+	dst := newDest(dir)
+	path := dst.path
 	id := 0
 	for _, n := range in.Init {
 		initB = append(initB, mkLine(id, n)...)
@@ -208,7 +322,6 @@ func runW(in WIn, dir string) (ob Obs, batches [][]byte, initB []byte, crash str
 	}
 	ob.Sec0 = ob.Secs[0]
 	ob.Secs = nil
-	nmoved := 0
 	for _, o := range in.Ops {
 		switch o.K {
 		case "t":
@@ -226,6 +339,7 @@ func runW(in WIn, dir string) (ob Obs, batches [][]byte, initB []byte, crash str
 			if s1 != s2 {
 				ambiguous = true
 				rf.Close()
+				dst.restore()
 				return
 			}
 			ob.Secs = append(ob.Secs, s1-base)
@@ -235,21 +349,12 @@ func runW(in WIn, dir string) (ob Obs, batches [][]byte, initB []byte, crash str
 				e = "error"
 			}
 			ob.Errs = append(ob.Errs, e)
-		case "rm":
-			if b, err := ioutil.ReadFile(path); err == nil {
-				if os.Remove(path) == nil {
-					ob.gone = append(ob.gone, b)
-					ob.Gone = append(ob.Gone, len(b))
-				}
-			}
-		case "mv":
-			if _, err := os.Stat(path); err == nil {
-				dst := filepath.Join(dir, fmt.Sprintf("moved-%d", nmoved))
-				if os.Rename(path, dst) == nil {
-					nmoved++
-				}
-			}
+		case "rm", "mv", "da", "df", "db":
+			dst.fault(o.K, &ob)
 		case "re":
+			if dst.away {
+				break // no writer can be started while the directory is unreachable
+			}
 			rf.Close()
 			if !open() {
 				return
@@ -257,19 +362,13 @@ func runW(in WIn, dir string) (ob Obs, batches [][]byte, initB []byte, crash str
 		}
 	}
 	rf.Close()
+	dst.restore()
 	if b, err := ioutil.ReadFile(path); err == nil {
 		ob.Exists = true
 		ob.cur = b
 	}
 	ob.CurLen, ob.CurHead = len(ob.cur), head(ob.cur)
-	for i := 0; i < nmoved; i++ {
-		b, err := ioutil.ReadFile(filepath.Join(dir, fmt.Sprintf("moved-%d", i)))
-		if err != nil {
-			hx.Fatal("moved file: %v", err)
-		}
-		ob.moved = append(ob.moved, b)
-		ob.Moved = append(ob.Moved, len(b))
-	}
+	dst.readMoved(&ob)
 	rot, err := readRot(path, base)
 	if err != nil {
 		crash = err.Error()
@@ -366,6 +465,7 @@ func coqRLEs(bs [][]byte) string {
 func coqW(id int, in WIn, ob Obs, batches [][]byte, initB []byte) string {
 	var ops []string
 	wi, si := 0, 0
+	away := false
 	for _, o := range in.Ops {
 		switch o.K {
 		case "w":
@@ -376,7 +476,17 @@ func coqW(id int, in WIn, ob Obs, batches [][]byte, initB []byte) string {
 			ops = append(ops, "CRemove")
 		case "mv":
 			ops = append(ops, "CMove")
+		case "da", "df":
+			ops = append(ops, "CDirAway")
+			away = true
+		case "db":
+			ops = append(ops, "CDirBack")
+			away = false
 		case "re":
+			if away { // not performed (no writer can be started); the model does nothing either
+				ops = append(ops, "CReopen 0%N")
+				break
+			}
 			ops = append(ops, fmt.Sprintf("CReopen %s", hx.CoqN(uint64(ob.Secs[si]))))
 			si++
 		}
@@ -479,12 +589,37 @@ func alignSecond() {
 	}
 }
 
+// badValue: something encoding/json refuses to marshal.
+func badValue(k int) interface{} {
+	switch k {
+	case -2:
+		return make(chan int)
+	case -3:
+		return func() {}
+	}
+	return math.NaN()
+}
+
+// waitUntil polls cond every 2 ms up to max; it reports whether cond became true.
+func waitUntil(max time.Duration, cond func() bool) bool {
+	deadline := time.Now().Add(max)
+	for {
+		if cond() {
+			return true
+		}
+		if time.Now().After(deadline) {
+			return false
+		}
+		time.Sleep(2 * time.Millisecond)
+	}
+}
+
+const patience = 45 * time.Second // deadline for things that must happen eventually
+
 func runC(in CIn, dir string) (ob Obs, lines [][][]byte, initB []byte, crash string, ambiguous bool) {
 	os.RemoveAll(dir)
-	if err := os.MkdirAll(dir, 0o755); err != nil {
-		hx.Fatal("mkdir: %v", err)
-	}
-	path := filepath.Join(dir, "log")
+	dst := newDest(dir)
+	path := dst.path
 	id := 0
 	if !in.Openable {
 		// the directory of the log file is a regular file: OpenFile fails whoever runs this
@@ -509,6 +644,7 @@ func runC(in CIn, dir string) (ob Obs, lines [][][]byte, initB []byte, crash str
 		if r := recover(); r != nil {
 			crash = fmt.Sprintf("panic: %v", r)
 		}
+		dst.restore()
 	}()
 	var cfg tomlCfg
 	md, err := toml.Decode(fmt.Sprintf("[c]\ntype=\"file\"\nfilename=%s\nmaxsize=%d\n", hx.TomlStr(path), in.Max), &cfg)
@@ -546,87 +682,107 @@ func runC(in CIn, dir string) (ob Obs, lines [][][]byte, initB []byte, crash str
 		return
 	}
 	ob.Sec0 = 0
-	for _, burst := range in.Bursts {
+	buffered := 0 // bytes the writer holds after the events sent so far (it flushes at 500 KiB)
+	for bi, burst := range in.Bursts {
+		// the channel is quiescent here (the idle flush of the previous burst has been seen)
+		if bi < len(in.Faults) && in.Faults[bi] != "" {
+			dst.fault(in.Faults[bi], &ob)
+		}
 		var evs []event.Event
 		var bl [][]byte
-		total := 0
+		crossed := false
 		for _, n := range burst {
+			if n < 0 {
+				evs = append(evs, event.New(event.Custom("date", "d"), event.Custom("i", id), event.Custom("bad", badValue(n))))
+				id++
+				bl = append(bl, nil)
+				continue
+			}
 			i, p := evFields(id, n)
 			id++
 			evs = append(evs, event.New(event.Custom("date", "d"), event.Custom("i", i), event.Custom("p", p)))
 			b, _ := json.Marshal(map[string]interface{}{"date": "d", "i": i, "p": p})
 			b = append(b, '\n')
 			bl = append(bl, b)
-			total += len(b)
+			buffered += len(b)
+			if buffered >= 500*1024 {
+				buffered, crossed = 0, true
+			}
 		}
 		lines = append(lines, bl)
 		if in.Big {
-			if !sendTimeout(ch, evs, 60*time.Second) {
+			if !sendTimeout(ch, evs, 2*patience) {
 				ob.Blocked = true
 				break
 			}
-			// quiescence: nothing changed for 1.5 s (the idle flush has happened)
-			last, lastChange := takeSnap(path), time.Now()
-			deadline := time.Now().Add(60 * time.Second)
-			for time.Now().Before(deadline) && time.Since(lastChange) < 1500*time.Millisecond {
-				time.Sleep(10 * time.Millisecond)
-				if sn := takeSnap(path); sn != last {
-					last, lastChange = sn, time.Now()
-				}
-			}
+			// the idle flush of what is left, then nothing changes for 1.5 s
+			quiesce(path, 1500*time.Millisecond, 2*patience)
+			buffered = 0
 			ob.Secs = append(ob.Secs, 0, 0)
 			continue
 		}
 		alignSecond()
 		s1 := time.Now().Unix()
 		t0 := time.Now()
-		if !sendTimeout(ch, evs, 3*time.Second) {
+		nfail := tap.failures(path)
+		beforeHidden := takeSnap(filepath.Join(dst.ldir+".away", "log"))
+		if !sendTimeout(ch, evs, patience) {
 			ob.Blocked = true
 			ob.Secs = append(ob.Secs, s1-base, s1-base)
 			break
 		}
-		s2 := time.Now().Unix()
-		if s1 != s2 || time.Since(t0) > 600*time.Millisecond {
+		tdone := time.Now()
+		s2 := tdone.Unix()
+		before := takeSnap(path) // the idle flush comes a second after the last Send at the earliest
+		// more than a second between two Sends would let the idle flush cut the burst in two;
+		// a size flush during the burst needs one clock reading
+		if time.Since(t0) > 600*time.Millisecond || (crossed && s1 != s2) {
 			ambiguous = true
 			break
 		}
-		// wait for the idle flush (one second without a request) and note its second
-		before := takeSnap(path)
-		var tflush time.Time
-		deadline := time.Now().Add(1600 * time.Millisecond)
-		for time.Now().Before(deadline) {
-			time.Sleep(2 * time.Millisecond)
-			if takeSnap(path) != before {
-				tflush = time.Now()
-				break
+		tflush := time.Now()
+		switch {
+		case buffered == 0:
+			// nothing is pending (no encodable event, or the size flush took everything)
+		case dst.away:
+			// the idle flush must fail: wait until the writer has said so (then the batch is gone)
+			// (or, should it write through its old descriptor into the directory that was moved
+			// away, until that shows)
+			hidden := filepath.Join(dst.ldir+".away", "log")
+			if !waitUntil(patience, func() bool { return tap.failures(path) > nfail || takeSnap(hidden) != beforeHidden }) {
+				crash = "no flush attempt seen within the deadline while the destination was unreachable"
+				return
+			}
+			quiesce(hidden, 150*time.Millisecond, patience)
+		default:
+			// wait for the idle flush (one second without a request) to change the destination,
+			// let a multi-rotation flush finish, then take the flush's second from the files
+			// themselves (modification times of what was written after the last Send returned; a size flush
+			// during the burst is older)
+			// (bounded by 10 s: should this goroutine have been stalled for a second right after
+			// the last Send, the flush is already in the snapshot and nothing more will change)
+			waitUntil(10*time.Second, func() bool { return takeSnap(path) != before })
+			quiesce(path, 150*time.Millisecond, patience)
+			if ft, n, spread := writtenSince(path, tdone); n > 0 {
+				if spread || ft.Nanosecond() > 985e6 || ft.Nanosecond() < 15e6 {
+					ambiguous = true
+				}
+				tflush = ft
 			}
 		}
-		if tflush.IsZero() {
-			// nothing was pending (the size threshold flushed everything): any second will do
-			tflush = time.Now()
-		} else if tflush.Nanosecond() < 40e6 {
-			ambiguous = true
+		if ambiguous {
 			break
 		}
-		// let a multi-rotation flush finish (nothing changes for 150 ms), then take the flush's
-		// second from the files themselves (modification times of what was written since the
-		// send started) rather than from this goroutine's clock, which lags under load
-		quiesce(path, 150*time.Millisecond, 20*time.Second)
-		if ft, n, spread := writtenSince(path, t0); n > 0 {
-			if spread || ft.Nanosecond() > 985e6 || ft.Nanosecond() < 15e6 {
-				ambiguous = true
-				break
-			}
-			tflush = ft
-		}
+		buffered = 0
 		ob.Secs = append(ob.Secs, s1-base, tflush.Unix()-base)
 	}
 	if !ob.Blocked {
 		if fb, ok := ch.(*fschannel.FileBackend); ok {
 			fb.Close()
-			quiesce(path, 100*time.Millisecond, 20*time.Second)
+			quiesce(path, 100*time.Millisecond, patience)
 		}
 	}
+	dst.restore()
 	if ambiguous {
 		return
 	}
@@ -636,6 +792,7 @@ func runC(in CIn, dir string) (ob Obs, lines [][][]byte, initB []byte, crash str
 	}
 	ob.CurLen, ob.CurHead = len(ob.cur), head(ob.cur)
 	if in.Openable {
+		dst.readMoved(&ob)
 		rot, err := readRot(path, base)
 		if err != nil {
 			crash = err.Error()
@@ -646,6 +803,20 @@ func runC(in CIn, dir string) (ob Obs, lines [][][]byte, initB []byte, crash str
 	return
 }
 
+var faultCode = map[string]int{"": 0, "rm": 1, "mv": 2, "da": 3, "df": 3, "db": 4}
+
+func coqOptRLEs(bs [][]byte) string {
+	var es []string
+	for _, b := range bs {
+		if b == nil {
+			es = append(es, "None")
+		} else {
+			es = append(es, "Some "+coqRLE(b))
+		}
+	}
+	return hx.CoqList(es, "(option rle)")
+}
+
 func coqC(id int, in CIn, ob Obs, lines [][][]byte, initB []byte) string {
 	var bs []string
 	for k, bl := range lines {
@@ -653,7 +824,11 @@ func coqC(id int, in CIn, ob Obs, lines [][][]byte, initB []byte) string {
 		if 2*k+1 < len(ob.Secs) {
 			s1, s2 = ob.Secs[2*k], ob.Secs[2*k+1]
 		}
-		bs = append(bs, fmt.Sprintf("(%s, %s, %s)", hx.CoqN(uint64(s1)), hx.CoqN(uint64(s2)), coqRLEs(bl)))
+		f := 0
+		if k < len(in.Faults) {
+			f = faultCode[in.Faults[k]]
+		}
+		bs = append(bs, fmt.Sprintf("(%s, %s, %s, %s)", hx.CoqN(uint64(f)), hx.CoqN(uint64(s1)), hx.CoqN(uint64(s2)), coqOptRLEs(bl)))
 	}
 	var clock []string
 	if in.Big {
@@ -661,9 +836,9 @@ func coqC(id int, in CIn, ob Obs, lines [][][]byte, initB []byte) string {
 			clock = append(clock, hx.CoqN(uint64(r.Sec)))
 		}
 	}
-	return fmt.Sprintf("CC (mkC %s %s %s %s %s %s %s %s %s %s %s)", hx.CoqN(uint64(id)), hx.CoqZ(in.Max), hx.CoqBool(in.Openable),
-		hx.CoqN(uint64(ob.Sec0)), coqRLE(initB), hx.CoqList(bs, "(N * N * list rle)"), hx.CoqList(clock, "N"),
-		hx.CoqBool(!ob.NewErr), hx.CoqBool(ob.Blocked), coqRLE(ob.cur), coqRot(ob.Rot))
+	return fmt.Sprintf("CC (mkC %s %s %s %s %s %s %s %s %s %s %s %s %s)", hx.CoqN(uint64(id)), hx.CoqZ(in.Max), hx.CoqBool(in.Openable),
+		hx.CoqN(uint64(ob.Sec0)), coqRLE(initB), hx.CoqList(bs, "(N * N * N * list (option rle))"), hx.CoqList(clock, "N"),
+		hx.CoqBool(!ob.NewErr), hx.CoqBool(ob.Blocked), coqRLE(ob.cur), coqRot(ob.Rot), coqRLEs(ob.moved), coqRLEs(ob.gone))
 }
 
 // ---- generators ----
@@ -720,6 +895,7 @@ func genW(r *hx.Rand, big bool) WIn {
 		}
 	}
 	nops := r.Range(1, 7)
+	away := ""
 	if big {
 		nops = r.Range(2, 4)
 	}
@@ -735,6 +911,15 @@ func genW(r *hx.Rand, big bool) WIn {
 			pos = 0
 		case x == 5:
 			in.Ops = append(in.Ops, Op{K: "re"})
+		case x == 6 && !big:
+			// an outage of the directory over the next write(s)
+			if away == "" {
+				away = r.PickStr([]string{"da", "df"})
+				in.Ops = append(in.Ops, Op{K: away})
+			} else {
+				in.Ops = append(in.Ops, Op{K: "db"})
+				away = ""
+			}
 		}
 		o := Op{K: "w"}
 		nl := 1
@@ -745,6 +930,10 @@ func genW(r *hx.Rand, big bool) WIn {
 			o.Lens = append(o.Lens, pick())
 		}
 		in.Ops = append(in.Ops, o)
+	}
+	if away != "" {
+		// the outage ends and what is written afterwards must be there
+		in.Ops = append(in.Ops, Op{K: "db"}, Op{K: "w", Lens: []int{pick(), pick()}})
 	}
 	return in
 }
@@ -814,9 +1003,119 @@ func genC(r *hx.Rand) CIn {
 		for j, k := 0, r.PickInt([]int{1, 1, 2, 5, 12, 30}); j < k; j++ {
 			b = append(b, r.PickInt([]int{40, 100, 100, 300, 500, int(in.Max) - 1, int(in.Max) + 1}))
 		}
+		if r.Chance(1, 3) && len(b) < 12 {
+			at := r.Intn(len(b) + 1)
+			b = append(append(append([]int(nil), b[:at]...), -1-r.Intn(3)), b[at:]...)
+		}
 		in.Bursts = append(in.Bursts, b)
 	}
+	if r.Chance(1, 2) {
+		in.Faults = make([]string, nb)
+		at := r.Intn(nb)
+		k := r.PickStr([]string{"rm", "mv", "da", "df"})
+		in.Faults[at] = k
+		if (k == "da" || k == "df") && at+1 < nb {
+			in.Faults[at+1] = "db"
+		}
+	}
 	return in
+}
+
+// faultsW: a base history of writes with (1) an outage of the log directory over every window
+// [i,j) of the write sequence (0 <= i <= j <= n; the writes inside fail, everything after must be
+// there), in the realisations picked by variant, and (2) the file removed / renamed away at every
+// position.  all=false keeps a spread of them.
+func faultsW(max int64, base [][]int, all bool) []WIn {
+	n := len(base)
+	var out []WIn
+	mk := func(pre map[int][]string) WIn {
+		in := WIn{Max: max}
+		for i := 0; i <= n; i++ {
+			for _, k := range pre[i] {
+				in.Ops = append(in.Ops, Op{K: k})
+			}
+			if i < n {
+				in.Ops = append(in.Ops, Op{K: "w", Lens: base[i]})
+			}
+		}
+		return in
+	}
+	c := 0
+	for i := 0; i <= n; i++ {
+		for j := i; j <= n; j++ {
+			for v, away := range []string{"da", "df"} {
+				c++
+				if !all && (c+v)%2 == 0 {
+					continue
+				}
+				if i == j {
+					out = append(out, mk(map[int][]string{i: {away, "db"}}))
+				} else {
+					out = append(out, mk(map[int][]string{i: {away}, j: {"db"}}))
+				}
+			}
+		}
+		for _, k := range []string{"rm", "mv"} {
+			out = append(out, mk(map[int][]string{i: {k}}))
+		}
+	}
+	// combinations: the file goes while the directory is away (nothing happens), a restart
+	// right after the directory is back, two outages
+	out = append(out, mk(map[int][]string{1: {"da", "rm"}, 2: {"db"}}), mk(map[int][]string{1: {"df"}, 2: {"db", "re"}}),
+		mk(map[int][]string{0: {"da"}, 1: {"db"}, 2: {"df"}, 3: {"db", "mv"}}), mk(map[int][]string{1: {"rm", "da"}, 2: {"db"}}))
+	return out
+}
+
+// faultsC: the same for the channel, between bursts (each burst ends with its idle flush).
+func faultsC(max int64, base [][]int, all bool) []CIn {
+	n := len(base)
+	var out []CIn
+	mk := func(f map[int]string) CIn {
+		in := CIn{Max: max, Openable: true, Bursts: base, Faults: make([]string, n)}
+		for i, k := range f {
+			in.Faults[i] = k
+		}
+		return in
+	}
+	c := 0
+	for i := 0; i < n; i++ {
+		for j := i + 1; j <= n; j++ {
+			for v, away := range []string{"da", "df"} {
+				c++
+				if !all && (c+v)%3 != 0 {
+					continue
+				}
+				f := map[int]string{i: away}
+				if j < n {
+					f[j] = "db"
+				}
+				out = append(out, mk(f))
+			}
+		}
+		for v, k := range []string{"rm", "mv"} {
+			if all || (i+v)%2 == 0 {
+				out = append(out, mk(map[int]string{i: k}))
+			}
+		}
+	}
+	return out
+}
+
+// badC: an event the encoder rejects at every position of a burst that has buffered events
+// before and after it; the burst before and the one after are ordinary.
+func badC(max int64, burst []int, all bool) []CIn {
+	var out []CIn
+	for pos := 0; pos <= len(burst); pos++ {
+		for kind := -1; kind >= -3; kind-- {
+			if !all && (pos+(-kind))%3 != 1 {
+				continue
+			}
+			b := append(append(append([]int(nil), burst[:pos]...), kind), burst[pos:]...)
+			out = append(out, CIn{Max: max, Openable: true, Bursts: [][]int{{300}, b, {300}}})
+		}
+	}
+	out = append(out, CIn{Max: max, Openable: true, Bursts: [][]int{{200, -1, -2, 200}, {-3}, {-1, 200}}})
+	return out
 }
 
 // bigBurst: one burst without idle gap, the pattern of event lengths repeated up to total bytes
@@ -848,6 +1147,14 @@ type job struct {
 
 var clockRetries int64 // cases run again because a clock reading straddled a second boundary
 
+func inputJSON(in Input) string {
+	b, _ := json.Marshal(in)
+	if len(b) > 400 {
+		b = b[:400]
+	}
+	return string(b)
+}
+
 func runJob(j job, scratch string) hx.Case {
 	dir := filepath.Join(scratch, fmt.Sprintf("c%d", j.id))
 	defer os.RemoveAll(dir)
@@ -859,7 +1166,7 @@ func runJob(j job, scratch string) hx.Case {
 				continue
 			}
 			if amb {
-				hx.Fatal("case %d: the clock could not be pinned down in 12 attempts", j.id)
+				hx.Fatal("case %d: the clock could not be pinned down in 12 attempts: %s", j.id, inputJSON(j.in))
 			}
 			c := hx.Case{ID: j.id, Kind: "write", Input: j.in, Obs: ob, Crash: crash}
 			if crash == "" {
@@ -873,7 +1180,7 @@ func runJob(j job, scratch string) hx.Case {
 			continue
 		}
 		if amb {
-			hx.Fatal("case %d: the clock could not be pinned down in 12 attempts", j.id)
+			hx.Fatal("case %d: the clock could not be pinned down in 12 attempts: %s", j.id, inputJSON(j.in))
 		}
 		c := hx.Case{ID: j.id, Kind: "chan", Input: j.in, Obs: ob, Crash: crash}
 		if crash == "" {
@@ -885,6 +1192,7 @@ func runJob(j job, scratch string) hx.Case {
 
 func main() {
 	o := hx.ParseArgs()
+	logging.SetBackend(tap)
 	r := hx.NewRand(o.Seed)
 	var ins []Input
 	w := func(x WIn) { y := x; ins = append(ins, Input{W: &y}) }
@@ -959,6 +1267,34 @@ func main() {
 		}
 		for i := 0; i < nchan; i++ {
 			c(genC(r))
+		}
+		// destination faults at every position of the history, events the encoder rejects at
+		// every position of a burst
+		all := o.Tier != "quick"
+		baseW := [][]int{{300, 300}, {300, 300}, {300}, {300, 300, 300}}
+		for _, x := range faultsW(1024, baseW, all) {
+			w(x)
+		}
+		baseC := [][]int{{200, 200}, {300}, {200, 200, 200}, {300, 300}}
+		for _, x := range faultsC(1024, baseC, all) {
+			c(x)
+		}
+		for _, x := range badC(1024, []int{200, 200, 200, 200}, all) {
+			c(x)
+		}
+		if all {
+			for _, x := range faultsW(4096, [][]int{{1000, 1000, 1000}, {1000, 1000}, {5000}, {100}, {1000, 1000, 1000}}, true) {
+				w(x)
+			}
+			for _, x := range faultsC(4096, [][]int{{1000, 1000, 1000}, {1000, 1000}, {100}}, true) {
+				c(x)
+			}
+			// unencodable events inside a burst that crosses the size flush
+			big := bigBurst(1024, []int{350}, 546000)
+			for i := 97; i < len(big.Bursts[0]); i += 211 {
+				big.Bursts[0][i] = -1 - i%3
+			}
+			c(big)
 		}
 		if o.Tier == "thorough" {
 			c(CIn{Max: 1 << 20, Openable: true, Bursts: [][]int{rep(2000, 300), rep(2000, 300)}})
